@@ -26,7 +26,7 @@ type C09Sc struct {
 
 var c09Outcomes = []ItemSc{
 	{Tok: "ok"}, {Tok: "et"}, {Tok: "ep"}, {Tok: "pe"}, {Tok: "ps"}, {Tok: "pi"}, {Op: "unrouted", Tok: "ok"}, {Tok: "ok", Ext: "critical"},
-	{Tok: "pS"}, {Tok: "pn"}, {Tok: "ok", Ext: "plain"}, {Tok: "y1,ok"}, {Tok: "y2,et"},
+	{Tok: "pS"}, {Tok: "pn"}, {Tok: "ok", Ext: "plain"}, {Tok: "y1,ok"}, {Tok: "y2,et"}, {Tok: "pk"}, {Tok: "pK"}, {Tok: "pm"},
 }
 
 func genReqSc(g *simrt.Tape, maxItems int) ReqSc {
@@ -285,7 +285,7 @@ func execC09(x *X, scAny any) {
 }
 
 // ---- floor: every batch up to a length bound over the outcome alphabet, completely
-var c09FloorAlphabet = []ItemSc{{Tok: "ok"}, {Tok: "et"}, {Tok: "ep"}, {Tok: "pe"}, {Tok: "ps"}, {Tok: "pi"}, {Op: "unrouted", Tok: "ok"}, {Tok: "ok", Ext: "critical"}}
+var c09FloorAlphabet = []ItemSc{{Tok: "ok"}, {Tok: "et"}, {Tok: "ep"}, {Tok: "pe"}, {Tok: "ps"}, {Tok: "pi"}, {Op: "unrouted", Tok: "ok"}, {Tok: "ok", Ext: "critical"}, {Tok: "pk"}, {Tok: "pm"}}
 
 func c09FloorMaxLen(tier string) int {
 	if tier == "thorough" {
